@@ -80,6 +80,9 @@ GhostInit ==
     reqs     |-> <<>>,         \* [cid, mid, cast, n, t0, cmd, waiting, acc]
     roPending|-> "",
     refusing |-> FALSE, snap |-> <<>>,
+    ctxEff   |-> FALSE,        \* the request being handled has already caused an effect (signal, spawn, event)
+    ctxHard  |-> FALSE,        \* ... an effect other than an `updated` event
+    multiSet |-> FALSE,        \* ... and it is a set request carrying more than one option
     lastSig  |-> <<>>,         \* pid -> <<sig, t>> last supervisor signal
     term     |-> <<>>,         \* pid -> termination record
     csigs    |-> {},           \* <<child, sig>> signalled since the last `signal` line on a worker
@@ -167,9 +170,9 @@ Upd(g, o, ln, o2) ==
                                graceful |-> ln.q.graceful, cast |-> ln.q.cast, waiting |-> ln.q.waiting,
                                busy |-> o2.slot # ""]
                 ELSE IF ln.cb = 0 \/ ln.k = "reqend" THEN NoCtx ELSE g.ctx
-      reqs1  == IF isReq /\ ~ln.q.raw
+      reqs1  == IF isReq
                 THEN Append(g.reqs, [cid |-> ln.x, mid |-> ln.q.mid, cast |-> ln.q.cast, n |-> 0, t0 |-> ln.t,
-                                     cmd |-> ln.q.cmd, waiting |-> ln.q.waiting])
+                                     cmd |-> ln.q.cmd, waiting |-> ln.q.waiting, raw |-> ln.q.raw])
                 ELSE IF isRep
                 THEN [i \in 1..Len(g.reqs) |-> IF g.reqs[i].cid = ln.x
                                                THEN [g.reqs[i] EXCEPT !.n = @ + 1] ELSE g.reqs[i]]
@@ -256,6 +259,13 @@ Upd(g, o, ln, o2) ==
                              ELSE IF isRep /\ ln.x = @ THEN "" ELSE @,
                !.refusing = IF isReq THEN (o2.slot # "" /\ ln.q.cmd \in ExclCmds /\ ~ln.q.cast /\ ~ln.q.raw)
                             ELSE IF isRep /\ ln.x = g.ctx.cid THEN FALSE ELSE @,
+               !.ctxEff = IF isReq THEN FALSE
+                          ELSE @ \/ (ln.k \in SigKinds /\ ln.r # "nsp") \/ ln.k = "spawn"
+                                 \/ (isEv /\ ln.x \notin {"hook_success", "hook_failure"}),
+               !.ctxHard = IF isReq THEN FALSE
+                           ELSE @ \/ (ln.k \in SigKinds /\ ln.r # "nsp") \/ ln.k = "spawn"
+                                  \/ (isEv /\ ln.x \notin {"hook_success", "hook_failure", "updated"}),
+               !.multiSet = IF isReq THEN (ln.q.cmd = "set" /\ ln.q.nopts > 1) ELSE @,
                !.snap = IF isReq THEN <<o2.w, o2.wl, o2.wn>> ELSE @,
                !.lastSig = lastSig1,
                !.term = term1,
@@ -388,7 +398,7 @@ C04_status(o, ln, o2) ==
 \* ---------------- C05
 C05_noblock(ln) == ln.k # "block"
 C05_readnow(g, ln) == ~(g.roPending # "" /\ ln.cb = 0)
-OpenWaiting(g) == { i \in 1..Len(g.reqs) : g.reqs[i].waiting /\ g.reqs[i].n = 0 /\ ~g.reqs[i].cast }
+OpenWaiting(g) == { i \in 1..Len(g.reqs) : g.reqs[i].waiting /\ g.reqs[i].n = 0 /\ ~g.reqs[i].cast /\ ~g.reqs[i].raw }
 C05_bound(g, o, ln) ==
    (ln.k = "tick" /\ ~g.blocked) =>
       /\ (o.slot # "" => g.t - g.op.t0 <= Bound(g, o))
@@ -399,12 +409,13 @@ ReqOf(g, cid) == g.reqs[CHOOSE i \in 1..Len(g.reqs) : g.reqs[i].cid = cid]
 C06_reply(g, ln) ==
    ln.k = "reply" =>
       /\ \E i \in 1..Len(g.reqs) : g.reqs[i].cid = ln.x
-      /\ LET r == ReqOf(g, ln.x) IN ~r.cast /\ r.n = 0 /\ ln.w = r.mid
+      /\ LET r == ReqOf(g, ln.x) IN r.raw \/ (~r.cast /\ r.n = 0 /\ ln.w = r.mid)     \* (raw frames: Protocol.tla)
       /\ ln.b = 1
 C06_status(ln) == ln.k = "reply" => ln.r \in {"ok", "error"}
 C06_all(g, ln) ==
    \* (requests still pending when the daemon exits are outside: after an accepted quit nobody serves)
-   (ln.k = "end" /\ "ctrl" \notin g.closed) => \A i \in 1..Len(g.reqs) : g.reqs[i].n = (IF g.reqs[i].cast THEN 0 ELSE 1)
+   (ln.k = "end" /\ "ctrl" \notin g.closed) =>
+      \A i \in 1..Len(g.reqs) : g.reqs[i].raw \/ g.reqs[i].n = (IF g.reqs[i].cast THEN 0 ELSE 1)
 
 \* ---------------- C09
 C09_spawn(g, ln) == (ln.k = "ev" /\ ln.x = "spawn") => ln.p \notin g.spawned /\ ln.p \notin g.reaped
@@ -436,6 +447,13 @@ C10_refuse(g, o, ln, o2) ==
             /\ \/ ln.r = "error"
                \/ (g.ctx.cmd \in {"incr", "decr"} /\ HasWL(o, g.ctx.lname) /\ WL(o, g.ctx.lname).sing)
 C10_accept(ln) == (ln.k = "reply" /\ ln.w = "xprobe") => ln.r = "ok"
+
+\* ---------------- C11: a request refused as invalid or conflicting changes nothing
+\* (errno 1 invalid JSON, 2 unknown command, 3 message error, 5 command error incl. conflict / bad value / duplicate)
+C11_unchanged(g, ln, o2) ==
+   (ln.k = "reply" /\ g.ctx.on /\ ln.x = g.ctx.cid /\ ln.r = "error" /\ ln.a \in {1, 2, 3, 5}) =>
+      /\ <<o2.w, o2.wl, o2.wn>> = g.snap
+      /\ ~g.ctxEff
 
 \* ---------------- C13 (worker ids)
 C13_wid(o, o2) ==
@@ -525,6 +543,7 @@ Clauses(g, o, ln, o2, g2) ==
     C09_spawn |-> C09_spawn(g, ln), C09_reap |-> C09_reap(g, o, ln), C09_live |-> C09_live(g2, o2, ln),
     C09_startstop |-> C09_startstop(g, o2, ln),
     C10_wedge |-> C10_wedge(o2, ln), C10_refuse |-> C10_refuse(g, o, ln, o2), C10_accept |-> C10_accept(ln),
+    C11_unchanged |-> C11_unchanged(g, ln, o2),
     C13_wid |-> C13_wid(o, o2),
     C14_startgate |-> C14_startgate(g, o, o2), C14_siggate |-> C14_siggate(g, ln),
     C14_events |-> C14_events(g, ln),
@@ -536,8 +555,10 @@ Clauses(g, o, ln, o2, g2) ==
 \* Known findings (DESIGN.md 6/7).  A violated clause is attributed to a recorded defect only if the violation
 \* has that defect's signature: the clause, re-evaluated with exactly the effect of the deviation discounted,
 \* holds.  Anything else stays an unexplained violation.  Returns the finding id or "".
+NpBad(o) == \E i \in WIdx(o) : o.w[i].npbad
 KF(c, g, o, ln, o2, g2) ==
-  CASE c = "C09_live" ->
+  CASE c \in {"C04_status", "C04_count", "C04_owned", "C04_list"} /\ (NpBad(o) \/ NpBad(o2)) -> "D16"
+    [] c = "C09_live" ->
          IF /\ (((g2.spawned \ (g2.reaped \cup g2.killed)) \ g2.released) \ g2.pruned)
                    = { p \in AllTracked(o2) : KSt(o2, p) = "run" }
             /\ \A p \in (g2.envDied \ g2.released) : p \notin AllTracked(o2) => p \in (g2.reaped \cup g2.pruned)
@@ -589,6 +610,7 @@ KF(c, g, o, ln, o2, g2) ==
     [] c = "C01_fresh" ->
          \* a replacement started by this very operation died before it completed
          IF \E p \in 1..NK(o2) : p > g.op.mark /\ OwnerOf(g2, p) # "" /\ KSt(o2, p) # "run" THEN "D14" ELSE ""
+    [] c = "C11_unchanged" -> IF g.ctx.cmd = "set" /\ g.multiSet /\ ~g.ctxHard THEN "D7" ELSE ""
     [] c = "C15_addrm" -> IF g.ctx.on /\ g.ctx.cmd = "add" /\ g.ctx.lname = "" /\ ln.k = "reply" THEN "D9" ELSE ""
     [] c = "C06_status" -> IF g.ctx.on /\ g.ctx.cmd = "status" /\ g.ctx.hasname THEN "STATUS" ELSE ""
     [] c = "C08_done" -> IF g2.dsigBusy THEN "D6" ELSE ""
